@@ -105,4 +105,38 @@ Iter(sch, st, m, bitlen, padding) ==
               st |-> [bitcnt |-> IF n = 0 THEN st.bitcnt ELSE cn[n],
                       padcnt |-> IF DefinesPadcnt(sch) THEN 8*Len(tail) - L ELSE st.padcnt,
                       padflag |-> TRUE]]
+
+\* ---- long messages: K copies of one block `pat`, then a short tail -------------------------------
+\* A message of a megabyte cannot be handed to TLC byte by byte, but  pat^K \o tail  can: the first K blocks of the output
+\* are `pat` with counters start + 8B, start + 16B, ..., and the rest is what Iter emits for `tail` from the state in which
+\* 8BK bits went before (MC_PadBytes!LongAgree: equal to Iter on the expanded message, K = 0..2).  Output is in the
+\* compressed form the recorder uses: the maximal leading run of equal blocks [b, n] + the remaining blocks, and the maximal
+\* leading arithmetic progression of counters with step 8B [first, n] + the remaining counters.
+RECURSIVE LeadEqR(_,_,_)
+LeadEqR(seq, v, j) == IF j > Len(seq) \/ seq[j] # v THEN j - 1 ELSE LeadEqR(seq, v, j+1)
+LeadEq(seq, v) == LeadEqR(seq, v, 1)                    \* number of leading elements equal to v
+RECURSIVE LeadProgR(_,_,_,_,_)
+LeadProgR(cn, start, k0, B8, j) == IF j > Len(cn) \/ cn[j] # WAddNat(start, (k0 + j) * B8) THEN j - 1 ELSE LeadProgR(cn, start, k0, B8, j+1)
+LeadProg(cn, start, k0, B8) == LeadProgR(cn, start, k0, B8, 1)   \* leading j with cn[j] = start + (k0 + j) B8
+CompressBlocks(pat, K, blks) ==
+  IF K = 0 THEN (IF blks = <<>> THEN [head |-> [b |-> <<>>, n |-> 0], rest |-> <<>>]
+                 ELSE LET n == LeadEq(blks, blks[1]) IN [head |-> [b |-> blks[1], n |-> n], rest |-> SubSeq(blks, n+1, Len(blks))])
+  ELSE LET n == LeadEq(blks, pat) IN [head |-> [b |-> pat, n |-> K + n], rest |-> SubSeq(blks, n+1, Len(blks))]
+CompressCnts(start, K, B8, cn) ==                        \* counters start + B8, ..., start + K B8, then cn
+  IF K = 0 THEN (IF cn = <<>> THEN [head |-> [first |-> CZero, n |-> 0], rest |-> <<>>]
+                 ELSE LET n == 1 + LeadProg(SubSeq(cn, 2, Len(cn)), cn[1], 0, B8) IN [head |-> [first |-> cn[1], n |-> n], rest |-> SubSeq(cn, n+1, Len(cn))])
+  ELSE LET n == LeadProg(cn, start, K, B8) IN [head |-> [first |-> WAddNat(start, B8), n |-> K + n], rest |-> SubSeq(cn, n+1, Len(cn))]
+\* IterLong(sch, st, pat, K, tail, bitlen, padding): the message is pat^K \o tail (Len(pat) = B, 8BK < 2^31), bitlen = -1 when
+\* omitted, otherwise a bit length that reaches into the tail region (bitlen >= 8BK).
+IterLong(sch, st, pat, K, tail, bitlen, padding) ==
+  LET B == sch.B  B8 == 8 * sch.B
+      L == IF bitlen < 0 THEN 8 * Len(tail) ELSE bitlen - (B8 * K)          \* bits taken from the tail
+      st1 == [st EXCEPT !.bitcnt = WAddNat(st.bitcnt, B8 * K)]
+      x == Iter(sch, st1, tail, L, padding)
+      \* the unpadded scheme hands over one empty block only when the WHOLE final piece is empty
+      xb == IF sch.s = "none" /\ padding /\ K > 0 /\ x.blocks = << <<>> >> THEN <<>> ELSE x.blocks
+      xc == IF sch.s = "none" /\ padding /\ K > 0 /\ x.blocks = << <<>> >> THEN <<>> ELSE x.cnts
+  IN IF st.padflag \/ L < 0 \/ x.raises THEN [raises |-> TRUE, blocks |-> CompressBlocks(pat, 0, <<>>), cnts |-> CompressCnts(CZero, 0, B8, <<>>), st |-> st]
+     ELSE [raises |-> FALSE, blocks |-> CompressBlocks(pat, K, xb), cnts |-> CompressCnts(st.bitcnt, K, B8, xc),
+           st |-> IF padding /\ xc = <<>> /\ K > 0 THEN [x.st EXCEPT !.bitcnt = WAddNat(st.bitcnt, B8 * K)] ELSE x.st]
 =============================================================================
